@@ -701,7 +701,15 @@ class Gen:
                         pr.insert(0, etree.Comment("x"))
                     tc.append(pr)
                 if h > 1 and i > r0:
-                    tc.append(self.E("w:p"))
+                    if self.p(0.3):
+                        # the empty paragraph of a continuation cell keeps the paragraph style of the
+                        # cell it continues (what Word writes when a heading cell is merged downwards:
+                        # round-6 seed C19-continuation-copy-only-if-no-text)
+                        self.feat("styled_continuation_par")
+                        tc.append(self.E("w:p", {}, self.E("w:pPr", {}, self.E(
+                            "w:pStyle", {"w:val": self.r.choice(["Heading1", "Heading2", "Title"])}))))
+                    else:
+                        tc.append(self.E("w:p"))
                 elif self.p(self.k.cell_without_par):
                     self.feat("cell_without_par")
                 else:
